@@ -123,6 +123,8 @@ ASSUMPTIONS = [
     "free-running histories: call/return events are ordered by a logging mutex (intervals are only widened)",
 ]
 
+BATCH = 40000        # replayed paths per driver run
+
 RES = {-1: "nf", -3: "err", -7: "blocked", -9: "panic"}
 
 
@@ -371,38 +373,46 @@ def run(prop_id, tier, seed, replay=None):
             paths, unreach = core.edge_cover(g, rng)
             if tier == "thorough":
                 paths += core.random_walks(g, 500, 24, rng)
-            pf = os.path.join(sc, "paths-%s.ndjson" % c["name"])
-            # path ids are unique over all configurations
+            # path ids are unique over all configurations; large configurations are replayed in
+            # batches so that at most BATCH observed traces are held in memory
             init_obs = {n: o for n, o in g.inits}
-            exp = {}
-            with open(pf, "w") as f:
-                for p in paths:
-                    steps = [{"act": g.edges[e][1], "obs": g.edges[e][3], "viol": g.edges[e][4]} for e in p]
-                    d = {"id": next_id, "init_obs": init_obs.get(g.edges[p[0]][0]), "steps": steps}
-                    exp[next_id] = d
-                    f.write(json.dumps(d, separators=(",", ":")) + "\n")
-                    next_id += 1
-            obs_c, _ = family.run_driver(binary, "TestVerifLRUReplay", pf,
-                                         os.path.join(sc, "obs-%s.ndjson" % c["name"]), sc)
+            nd_cfg = 0
+            for b0 in range(0, len(paths), BATCH):
+                pf = os.path.join(sc, "paths-%s-%d.ndjson" % (c["name"], b0))
+                exp = {}
+                with open(pf, "w") as f:
+                    for p in paths[b0:b0 + BATCH]:
+                        steps = [{"act": g.edges[e][1], "obs": g.edges[e][3], "viol": g.edges[e][4]} for e in p]
+                        d = {"id": next_id, "init_obs": init_obs.get(g.edges[p[0]][0]), "steps": steps}
+                        exp[next_id] = d
+                        f.write(json.dumps(d, separators=(",", ":")) + "\n")
+                        next_id += 1
+                of = os.path.join(sc, "obs-%s-%d.ndjson" % (c["name"], b0))
+                obs_c, _ = family.run_driver(binary, "TestVerifLRUReplay", pf, of, sc)
+                ns_, nd, smp = family.drift(pf, obs_c, label=label)
+                dsteps += ns_
+                ddrift += nd
+                nd_cfg += nd
+                dsamples += [dict(s, config=c["name"]) for s in smp][:3]
+                need_c, clean_c, viol_c = split_observed(exp, obs_c)
+                need += need_c
+                violating += viol_c
+                n_clean += len(clean_c)
+                keep = rng.sample(clean_c, min(ns, len(clean_c)))
+                clean_samp += keep
+                # traces that equal a violation-free model path are not needed any more: keep their shape only
+                keep_ids = {t["id"] for t in keep}
+                clean_ids = {t["id"] for t in clean_c}
+                for i, t in enumerate(obs_c):
+                    if len(observed) + i >= 3 and t["id"] in clean_ids and t["id"] not in keep_ids:
+                        n = len(t["steps"])
+                        obs_c[i] = {"id": t["id"], "steps": stubs.setdefault(n, [None] * n)}
+                observed += obs_c
+                os.remove(pf)
+                os.remove(of)
+                del exp, obs_c, need_c, clean_c, viol_c
+            nd = nd_cfg
             _log(t0, c["name"], "replayed", len(paths), "paths")
-            ns_, nd, smp = family.drift(pf, obs_c, label=label)
-            dsteps += ns_
-            ddrift += nd
-            dsamples += [dict(s, config=c["name"]) for s in smp][:3]
-            need_c, clean_c, viol_c = split_observed(exp, obs_c)
-            need += need_c
-            violating += viol_c
-            n_clean += len(clean_c)
-            keep = rng.sample(clean_c, min(ns, len(clean_c)))
-            clean_samp += keep
-            # traces that equal a violation-free model path are not needed any more: keep their shape only
-            keep_ids = {t["id"] for t in keep}
-            for i, t in enumerate(obs_c):
-                if len(observed) + i >= 3 and t["id"] not in keep_ids and not t.get("error") \
-                        and conforms(t, exp[t["id"]]) and not any(m["viol"] for m in exp[t["id"]]["steps"]):
-                    n = len(t["steps"])
-                    obs_c[i] = {"id": t["id"], "steps": stubs.setdefault(n, [None] * n)}
-            observed += obs_c
             npaths += len(paths)
             unreach_tot += unreach
             tot.generated += tlc.generated
@@ -415,8 +425,7 @@ def run(prop_id, tier, seed, replay=None):
                                       transitions=len(g.edges), model_violating_edges=nviol, paths=len(paths),
                                       tlc_wall_s=round(tlc.wall, 1), drift_paths=nd)
             shutil.rmtree(os.path.join(sc, "tlc-" + c["name"]), ignore_errors=True)
-            os.remove(pf)
-            del g, exp, obs_c
+            del g
 
         free_obs, free_cfg = free_run(binary, sc, tier, seed, next_id)
         _log(t0, "free-running done", len(free_obs), "need", len(need), "clean", n_clean, "violating", len(violating))
